@@ -583,6 +583,7 @@ func checkC34(c *core.Ctx) {
 	c.Decide("create_block reads the logs of one ledger with id greater than the previous block's max id, ordered by id, chains previous_block.hash and records (previous, from, to); logs_blocks is keyed by (ledger, previous); the worker processes exactly the ledgers with HASH_LOGS=ASYNC; lock coverage: for every HASH_LOGS value that has an order-dependent consumer (SYNC: the hash trigger; ASYNC: create_block's `id > previous max`), InsertLog must take the per-ledger transaction lock before inserting")
 	c.NotDecided("actual block contents and the interleavings themselves")
 	c.Trust("a log whose id is below an already-built block's max id is never picked up by `id > max` again")
+	ruleBlockWorkerLoop(c)
 	cat := c.Catalog()
 	f := cat.Functions["create_block"]
 	if f == nil {
